@@ -50,7 +50,7 @@ def code_fn(cfg):
       return tree_util.tree_mean(feeder(zip(trees, weights)))
     if op == 'agg':
       agg = aggregator.mean_aggregator()
-      out, state = agg.apply(feeder((b'c%d' % i, t, w) for i, (t, w) in enumerate(zip(trees, weights))), agg.init())
+      out, state = agg.apply(feeder((b'c%d' % (0 if cfg.get('ids') == 'same' else i), t, w) for i, (t, w) in enumerate(zip(trees, weights))), agg.init())
       return out
     raise ValueError(op)
   return fn
@@ -107,9 +107,16 @@ def concrete_inputs_intact(cfg, vals=None):
   trees = [{k: jnp.asarray(np.asarray(rng.randn(*s), dtype=np.float32)) for k, s in SHAPES.items()} for _ in range(n)]
   copies = [{k: np.asarray(v).copy() for k, v in t.items()} for t in trees]
   ws = cfg.get('weights') or [1.0] * n
-  code_fn(dict(cfg, weights=ws))(trees, None)
+  out = code_fn(dict(cfg, weights=ws))(trees, None)
+  outs = [o for o in jax.tree_util.tree_leaves(out) if hasattr(o, 'unsafe_buffer_pointer')]
   for t, c in zip(trees, copies):
     for k in t:
+      for o in outs:       # aliasing: the result IS (or shares its buffer with) a caller-owned array
+        try:
+          if o is t[k] or (not o.is_deleted() and not t[k].is_deleted() and o.unsafe_buffer_pointer() == t[k].unsafe_buffer_pointer()):
+            return False, 'the result aliases the caller-owned input leaf %r (same array object / buffer)' % k
+        except Exception:   # pylint: disable=broad-except
+          pass
       if t[k].is_deleted():
         return False, 'input leaf %r was deleted (donated) by the call' % k
       if not np.array_equal(np.asarray(t[k]), c[k]):
@@ -281,6 +288,9 @@ def configs(tier):
       cfgs.append({'op': 'agg', 'n': n, 'weights': w, 'feed': 'gen'})
     cfgs.append({'op': 'mean', 'n': n, 'feed': 'gen'})          # symbolic weights through forks
     cfgs.append({'op': 'agg', 'n': n, 'feed': 'iter'})
+  # the mean is over the entries handed in, whatever their ids (a client sampled twice, a placeholder id for everyone)
+  cfgs.append({'op': 'agg', 'n': 2, 'weights': [1.0, 2.0], 'feed': 'list', 'ids': 'same'})
+  cfgs.append({'op': 'agg', 'n': 3, 'feed': 'gen', 'ids': 'same'})
   return cfgs
 
 
